@@ -773,7 +773,50 @@ private:"""),
             bstate.update(cstate.x(), lambda, miu);
             solver->more_precise(epsilonK);
         }
-"""),]
+"""),    # ---- C06
+    dict(property="C06", name="squared-hinge-gradient-missing-2", rule="R-C06-2", file="include/nano/loss/flatten.h", tu="src/loss.cpp",
+         old="vgrad = -target * ((1 - target * output).max(0)) * 2.0;", new="vgrad = -target * ((1 - target * output).max(0));"),
+    dict(property="C06", name="logistic-second-branch-sign", rule="R-C06-2", file="include/nano/loss/flatten.h", tu="src/loss.cpp",
+         old="const auto g = (x < 1.0) ? (std::exp(x) / (1.0 + std::exp(x))) : (1.0 / (1.0 + std::exp(-x)));", new="const auto g = (x < 1.0) ? (std::exp(x) / (1.0 + std::exp(x))) : (1.0 / (1.0 + std::exp(x)));"),
+    dict(property="C06", name="classnll-value-last-positive-only", rule="R-C06-2", file="include/nano/loss/flatten.h", tu="src/loss.cpp",
+         old="                posum += output(i);", new="                posum = output(i);"),
+    dict(property="C06", name="pinball-gradient-alpha-sign", rule="R-C06-2", file="src/loss/pinball.cpp",
+         old="vgrads.array(i) = -alpha + 0.5 * (1.0 - (itarget - ioutput).sign());", new="vgrads.array(i) = alpha + 0.5 * (1.0 - (itarget - ioutput).sign());"),
+    dict(property="C06", name="savage-declared-convex", rule="R-C06-3", file="include/nano/loss/flatten.h", tu="src/loss.cpp",
+         old="""struct savage_t : public terror
+{
+    static constexpr auto convex   = false;""", new="""struct savage_t : public terror
+{
+    static constexpr auto convex   = true;"""),
+    dict(property="C06", name="flatten-value-reads-previous-sample", rule="R-C06-4", file="include/nano/loss/flatten.h", tu="src/loss.cpp",
+         old="            values(i) = tloss::value(targets.array(i), outputs.array(i));", new="            values(i) = tloss::value(targets.array(i), outputs.array(i > 0 ? i - 1 : i));"),
+    dict(property="C06", name="sphere-value-inside-gradient-branch", rule="R-C06-1", file="src/function/benchmark/sphere.cpp",
+         old="""    if (gx.size() == x.size())
+    {
+        gx = 2 * x;
+    }
+
+    return x.dot(x);""", new="""    auto fx = x.dot(x);
+    if (gx.size() == x.size())
+    {
+        gx = 2 * x;
+        fx += 1e-12;
+    }
+
+    return fx;"""),
+    dict(property="C06", name="chained-cb3I-gradient-index-slip", rule="R-C06-2", file="src/function/benchmark/chained_cb3I.cpp",
+         old="                gx(i + 1) += 2.0 * x(i + 1);", new="                gx(i + 1) += 2.0 * x(i);"),
+    dict(property="C06", name="rosenbrock-gradient-coefficient", rule="R-C06-2", file="src/function/benchmark/rosenbrock.cpp",
+         old="            gx(i + 1) += ct * 2 * (x(i + 1) - x(i) * x(i));", new="            gx(i + 1) += ct * (x(i + 1) - x(i) * x(i));"),
+    dict(property="C06", name="ball-constraint-gradient", rule="R-C05-6", file="src/function/constraint.cpp",
+         old="        gx = 2.0 * (x - constraint.m_origin);", new="        gx = 2.0 * (x + constraint.m_origin);"),
+    dict(property="C06", name="new-strong-convexity-claim-on-trid", rule="R-C06-6", file="src/function/benchmark/trid.cpp",
+         old="""    : function_t("trid", dims)
+{
+    convex(convexity::yes);""", new="""    : function_t("trid", dims)
+{
+    strong_convexity(1.0);
+    convex(convexity::yes);"""),]
 
 BENIGN = [
     dict(property="C07", name="get-descent-test-inlined", file="src/lsearchk.cpp",
@@ -898,4 +941,6 @@ BENIGN = [
          old="            gx += penalty() * 2.0 * fc * gc;", new="            gx += 2.0 * fc * penalty() * gc;"),
     dict(property="C05", name="al-value-expanded", file="src/function/penalty.cpp",
          old="            fx += 0.5 * ro * (fc + mu / ro) * (fc + mu / ro);", new="            fx += 0.5 * ro * fc * fc + fc * mu + 0.5 * mu * mu / ro;"),
+    dict(property="C06", name="mse-value-reassociated", file="include/nano/loss/flatten.h",
+         old="return scalar_t(0.5) * (output - target).square().sum();", new="return ((target - output).square() * scalar_t(0.5)).sum();"),
 ]
